@@ -101,7 +101,8 @@ const VEC0: VecG = VecG {
     destroyed_at_release: 0, last_expand: 0, last_resize: 0,
 };
 
-pub static mut G: Ghost = Ghost {
+/// initial ghost state (also re-assigned by `ghost_init`, so no harness depends on static initialisation)
+const G0: Ghost = Ghost {
     esz: 0,
     arena: core::ptr::null_mut(),
     next_free: GAP,
@@ -115,6 +116,7 @@ pub static mut G: Ghost = Ghost {
     ext_src_on: false, ext_src: core::ptr::null(),
     ext_dst_on: false, ext_dst: core::ptr::null(),
 };
+pub static mut G: Ghost = G0;
 
 #[inline(always)]
 pub fn g() -> &'static mut Ghost {
@@ -124,6 +126,7 @@ pub fn g() -> &'static mut Ghost {
 /// Allocates the arena. Must be called first in every harness that uses the ghost backend.
 pub fn ghost_init() {
     let gh = g();
+    *gh = G0;
     unsafe {
         gh.arena = alloc::alloc::alloc(Layout::from_size_align_unchecked(ARENA_BYTES, 64));
     }
